@@ -189,6 +189,12 @@ def run(ctx: lib.Ctx) -> None:
         add(History(w['default'], [tuple(x) for x in w['breakpoints']]), w['head'], w['last'], w['step'], w['default'], 'fixed-witness')
         ctx.corpus_cases += 1
 
+    import glob, json, os
+    for path in sorted(glob.glob(os.path.join(lib.VERIF, 'corpus', PROP, '*.json'))):
+        for w in json.load(open(path)):
+            add(History(w['default'], [tuple(x) for x in w['breakpoints']]), w['head'], w['last'], w['step'], w.get('pred', w['default']), 'corpus')
+            ctx.corpus_cases += 1
+
     # 1. boundary family: one change at every offset of a small range, every step up to width+2; and two adjacent changes
     for width in ([1, 2, 3, 7, 12] if not ctx.thorough else [1, 2, 3, 4, 5, 7, 8, 12, 16, 25]):
         last = ctx.rng.choice([0, 1, 99, 1000])
